@@ -591,6 +591,30 @@ class KernelRun:
         for _ in range(r.randint(2, 4)):
             await self.pop()
 
+    async def plan_need_demotion(self):
+        """A chain of two optional steps feeds a planning step, so both inherit the need PLAN; the planning step is
+        dropped (the nested plan that declares it runs again without it): the need of both must fall back."""
+        r, wf = self.r, self.wf
+        running = await self.q(lambda: self.steps(StepState.RUNNING))
+        if "./plan.py" not in running:
+            return
+        x, y, z = r.sample(PATHS, 3)
+        for args in (("first", [], [x], Need.OPTIONAL), ("second", [x], [y], Need.OPTIONAL),
+                     ("./sub.py", [], [], Need.PLAN)):
+            if not (await self.define_explicit("./plan.py", *args)).startswith("ok"):
+                return
+        if not await self.pop_until("./sub.py", limit=4):
+            return
+        if not (await self.define_explicit("./sub.py", "./planner.py", [y], [z], Need.PLAN)).startswith("ok"):
+            return
+        await self.pop()
+        await self.step_op("reset_rerun", "./sub.py", fn=lambda: wf.find(Step, "./sub.py").reset_for_rerun())
+        for _ in range(r.randint(2, 3)):
+            await self.pop()
+        if r.random() < 0.5:
+            await self.complete_ok("./sub.py")
+            await self.end_phase()
+
     async def hold_running_recycled(self):
         """A RUNNING step opens a hold block and declares a child; its creator runs again (the running step and
         its child are detached) and declares it again unchanged: it is recycled while its hold block is open and
@@ -1177,7 +1201,7 @@ class KernelRun:
 
     SCENARIOS = ("nested_chain", "deferred_wakeup", "resource_race", "detached_completion", "rerole",
                  "amended_consumer_rerun", "hold_recycle", "shrink_resources", "retarget_optional", "cycle_via_detached",
-                 "hold_running_recycled", "deferred_on_detached_input")
+                 "hold_running_recycled", "deferred_on_detached_input", "plan_need_demotion")
 
     async def generate(self, cm, nops: int, scenario: str | None = None):
         """A history: boot, then (in the well-formed stream) one directed scenario with probability
@@ -1214,6 +1238,8 @@ class KernelRun:
                 await self.hold_running_recycled()
             elif k < 0.84:
                 await self.deferred_on_detached_input()
+            elif k < 0.88:
+                await self.plan_need_demotion()
         menu = [(self.define, 20), (self.static, 8), (self.declstatic, 5), (self.tree, 4), (self.nglob, 4),
                 (self.amend, 8), (self.recycle_under_glob, 3),
                 (self.confirm, 12), (self.external, 6), (self.pop, 18), (self.run_step, 18),
